@@ -73,10 +73,11 @@ func spareIntact(k []byte, key string) bool {
 
 // hres is the outcome of one handler-level command.
 type hres struct {
-	Class refmodel.Class
-	Hits  []*refmodel.Hit // per requested key for reads, nil = miss
-	Exps  []uint32        // GetE: remaining TTL per requested key
-	Err   error
+	EchoBad string // a get response that does not echo its request's quiet flag (judged by C04 only)
+	Class   refmodel.Class
+	Hits    []*refmodel.Hit // per requested key for reads, nil = miss
+	Exps    []uint32        // GetE: remaining TTL per requested key
+	Err     error
 }
 
 func errClass(err error) refmodel.Class {
@@ -141,7 +142,7 @@ func execHandler(h handlers.Handler, c wire.Cmd, spare int) (res hres, keysIntac
 			ks = append(ks, k)
 			req.Keys = append(req.Keys, k)
 			req.Opaques = append(req.Opaques, uint32(i))
-			req.Quiet = append(req.Quiet, false)
+			req.Quiet = append(req.Quiet, i%2 == 1) // every response must echo its request's quiet flag (the responder decides on it whether a miss is answered)
 		}
 		res.Hits = make([]*refmodel.Hit, len(c.Keys))
 		got := 0
@@ -181,6 +182,9 @@ func execHandler(h handlers.Handler, c wire.Cmd, spare int) (res hres, keysIntac
 					continue
 				}
 				got++
+				if int(r.Opaque) < len(res.Hits) && r.Quiet != req.Quiet[r.Opaque] && res.EchoBad == "" {
+					res.EchoBad = fmt.Sprintf("the response for key #%d (%q, miss=%v) carries quiet=%v, the request said %v", r.Opaque, c.Keys[r.Opaque], r.Miss, r.Quiet, req.Quiet[r.Opaque])
+				}
 				if int(r.Opaque) < len(res.Hits) && !r.Miss {
 					res.Hits[r.Opaque] = &refmodel.Hit{Key: string(r.Key), Value: r.Data, Flags: r.Flags}
 				}
